@@ -126,6 +126,21 @@ def run(chk):
     from hy.reader.hy_reader import HyReader
     shared = HyReader()
     shared_prev = None
+    # every one- and two-character source over the syntax-significant characters, read as a file
+    short = "7a(\")'`~#!;:. \n\t[]{}_*^@\\f\"r"
+    for t in [a for a in short] + [a + b for a in short for b in short]:
+        if t.startswith("#!"):
+            continue
+        ires = impl.read_many(t)
+        fres = impl.read_many(t, skip_shebang=True)
+        chk.count("short-source")
+        chk.case(("short", t), nontrivial=True)
+        if ires[0] in ("Other", "Timeout") or fres[0] in ("Other", "Timeout"):
+            chk.fail("foreign-exception", {"prefix": t}, repr((ires[:2], fres[:2])), "a reader error or models", how(t))
+        elif fres[0] != ires[0] or (ires[0] == "Ok" and [rc.value_only(rc.canon_impl(m)) for m in fres[1]] !=
+                                    [rc.value_only(rc.canon_impl(m)) for m in ires[1]]):
+            chk.fail("file-read-differs", {"prefix": t, "skip_shebang": True}, fres[0] + (": " + fres[1] if fres[0] in ("Lex", "Premature") else ""),
+                     ires[0] + " (as without skip_shebang)", "list(hy.read_many(%r, skip_shebang=True))" % t)
     n_prog = 6000 if thorough else 360
     n_repl = 600 if thorough else 60
     done = 0
@@ -139,6 +154,7 @@ def run(chk):
             tflat, _ = rc.render(p, "flat")
             if full[0] != "Ok" or len(text) > 400 or impl.read_many(tflat)[0] != "Ok":
                 chk.count("generator-invalid-or-long")
+                rc.rejected_program(chk, model, text, full, oracles)
                 continue
             done += 1
             vfull = [rc.value_only(rc.canon_impl(m)) for m in full[1]]
@@ -166,7 +182,19 @@ def run(chk):
                     if ires[0] != "Premature":
                         chk.fail("open-not-premature", {"prefix": prefix, "text": text, "why": lab[1]}, obs,
                                  "PrematureEndOfInput", how(prefix))
-                # one reader object is reused for many sources (the REPL keeps one for the session; read_many takes
+                # files are read with skip_shebang=True (importer, hy2py, hy command): a text that does not start with the
+            # shebang mark must read exactly as it does by default -- in particular a complete text is not premature
+            if ires[0] in ("Ok", "Lex", "Premature") and not prefix.startswith("#!") and (k <= 3 or k == len(text) or k % 4 == done % 4):
+                fres = impl.read_many(prefix, skip_shebang=True)
+                samef = fres[0] == ires[0] and (fres[0] != "Ok" or
+                                                [rc.value_only(rc.canon_impl(m)) for m in fres[1]] ==
+                                                [rc.value_only(rc.canon_impl(m)) for m in ires[1]])
+                chk.count("file-read")
+                if not samef:
+                    chk.fail("file-read-differs", {"prefix": prefix, "skip_shebang": True},
+                             fres[0] + (": " + fres[1] if fres[0] in ("Lex", "Premature") else ""), obs + " (as without skip_shebang)",
+                             "list(hy.read_many(%r, skip_shebang=True))" % prefix)
+            # one reader object is reused for many sources (the REPL keeps one for the session; read_many takes
                 # reader=): what a source reads as must not depend on what the same reader read -- or failed to read -- before
                 if ires[0] in ("Ok", "Lex", "Premature"):
                     sres = impl.read_many(prefix, reader=shared)
@@ -199,7 +227,7 @@ def run(chk):
                                  "more input wanted iff PrematureEndOfInput", "hy.REPL().runsource(%r)" % prefix)
         # user-defined reader macros that take their argument with Reader.getn / chars / peeking / parse_one_form:
         # a cut inside such a call is inside an unclosed construct (oracle only: user macros are outside the model)
-        mgen = rc.Gen(rng, fstrings=False, depth=3, rmacros=True)
+        mgen = rc.Gen(rng, fstrings=False, depth=3, rmacros=True, rtags="RT|K")  # #E/#D read identifiers: a cut inside is a cut inside an atom
         mdone = 0
         mtries = 0
         n_mac = 2500 if thorough else 150
@@ -207,7 +235,7 @@ def run(chk):
             mtries += 1
             p = mgen.program()
             text, r = rc.render(p)
-            if "#R" not in text and "#T" not in text and "#|" not in text and "#K" not in text and "#P" not in text:
+            if not any(("#" + t) in text for t in "RT|KPED"):
                 continue
             full = impl.read_many(text, reader=rc.macro_reader())
             tflat, _ = rc.render(p, "flat")
